@@ -71,7 +71,7 @@ class Summary:
 class Eval:
     MAX_DEPTH = 3
 
-    def __init__(self, repo, func, bindings=None, config=None, inline=(), depth=0, counter=None, self_term=None):
+    def __init__(self, repo, func, bindings=None, config=None, inline=(), depth=0, counter=None, self_term=None, heap=None):
         self.repo = repo
         self.func = func
         self.config = config or {}
@@ -79,7 +79,7 @@ class Eval:
         self.depth = depth
         self.counter = counter if counter is not None else [0]
         self.env = {}
-        self.heap = {}
+        self.heap = dict(heap or {})
         self.guard = []
         self.try_stack = []
         self.summary = Summary(func)
@@ -664,9 +664,24 @@ class Eval:
     def e_BinOp(self, n):
         return self.binop(n.op, self.ev(n.left), self.ev(n.right), n)
 
+    @staticmethod
+    def listy(t):
+        return t[0] in ("seq", "map", "concat", "flatmap", "rep") or (t[0] == "call" and t[1] in ("list", "sorted"))
+
     def binop(self, op, a, b, node):
         if isinstance(op, ast.Add):
+            if (self.listy(a) or self.listy(b)) and not (a[0] == "seq" and b[0] == "seq") and a[0] != "arr" and b[0] != "arr":
+                # python list concatenation is not commutative: keep the order
+                if a == T.seq(()):
+                    return b
+                if b == T.seq(()):
+                    return a
+                return ("concat", a, b)
             return T.add(a, b)
+        if isinstance(op, ast.Mult) and (a[0] == "seq" or b[0] == "seq") and a[0] != "arr" and b[0] != "arr":
+            s_, n_ = (a, b) if a[0] == "seq" else (b, a)
+            if not (n_[0] == "num" and n_[1].denominator == 1 and n_[1] >= 0) and n_[0] not in ("seq",):
+                return ("rep", s_, n_)               # list repetition by a symbolic count
         if isinstance(op, ast.Sub):
             return T.sub(a, b)
         if isinstance(op, ast.Mult):
@@ -1033,12 +1048,12 @@ def simplify_call(fname, recv, args, kw):
 _cache = {}
 
 
-def summarize(repo, qualname, config=None, inline=(), bindings=None):
+def summarize(repo, qualname, config=None, inline=(), bindings=None, heap=None):
     key = (id(repo), qualname, tuple(sorted((config or {}).items())), tuple(sorted(inline)),
-           tuple(sorted((bindings or {}).items())))
+           tuple(sorted((bindings or {}).items())), tuple(sorted((heap or {}).items(), key=repr)))
     if key not in _cache:
         f = repo.func(qualname)
-        _cache[key] = Eval(repo, f, bindings=bindings, config=config, inline=inline).run()
+        _cache[key] = Eval(repo, f, bindings=bindings, config=config, inline=inline, heap=heap).run()
     return _cache[key]
 
 
